@@ -255,6 +255,7 @@ func checkC17(c *Check) {
 	c.Floor("registry-hasTL2", 200)
 	c.Floor("registry-boxed-starts-with-tag", 150)
 	c.Floor("registry-functionness", 300)
+	c.Floor("registry-lists-every-tl2-declaration", 40)
 	c.Floor("registry-annotations", 150)
 	c.Floor("registry-function-vs-schema", 150)
 	c.Floor("registry-explicit-tag-verbatim", 30)
@@ -321,6 +322,32 @@ func (g *genCtx) registryVsSchemaText(c *Check, cn string, byName map[string]*me
 		return
 	}
 	bits := g.annotationBits()
+	// TL2 files: every declaration without type parameters (struct, union, enum, alias-free type, function) is a registry
+	// item — a declaration the registry does not list cannot be created or looked up by name or tag
+	for _, sch := range g.co.Spec.Schemas {
+		if !strings.HasSuffix(sch, ".tl2") {
+			continue
+		}
+		path := sch
+		if !strings.HasPrefix(path, "/") {
+			path = repoDir + "/" + sch
+		}
+		decls, err := scanTL2(path)
+		if err != nil {
+			c.Undecided("registry-vs-schema", cn, path, err.Error())
+			continue
+		}
+		for _, d := range decls {
+			if d.HasTemplate || d.IsAlias {
+				continue
+			}
+			it := byName[d.Name]
+			c.Ob("registry-lists-every-tl2-declaration", cn+":"+d.Name, it != nil, relPos(path), fmt.Sprintf("%s declares %s (function=%v); registered=%v", d.File, d.Name, d.IsFunction, it != nil))
+			if it != nil {
+				c.Ob("registry-function-vs-schema", cn+":"+d.Name, d.IsFunction == it.IsFunction, it.Pos, fmt.Sprintf("schema function=%v registry function=%v", d.IsFunction, it.IsFunction))
+			}
+		}
+	}
 	for _, sch := range g.co.Spec.Schemas {
 		if !strings.HasSuffix(sch, ".tl") {
 			continue
